@@ -32,6 +32,14 @@ theorem pairwise_lt_nodup {l : List (EKey × EdgeRec)} (h : l.Pairwise (fun a b 
   subst hne
   exact ekCmp_irrefl _ hab
 
+/-- two key-sorted lists with the same members are equal -/
+theorem sorted_ext {l1 l2 : List (EKey × EdgeRec)} (h1 : l1.Pairwise (fun a b => ekCmp a.1 b.1 = .lt))
+    (h2 : l2.Pairwise (fun a b => ekCmp a.1 b.1 = .lt)) (h : ∀ x, x ∈ l1 ↔ x ∈ l2) : l1 = l2 := by
+  have hperm : l1.Perm l2 := (List.perm_ext_iff_of_nodup (pairwise_lt_nodup h1) (pairwise_lt_nodup h2)).mpr h
+  have hanti : ∀ a b : EKey × EdgeRec, a ∈ l1 → b ∈ l2 → ekCmp a.1 b.1 = .lt → ekCmp b.1 a.1 = .lt → a = b :=
+    fun a b _ _ h1 h2 => (ekCmp_lt_asymm _ _ h1 h2).elim
+  exact List.Perm.eq_of_pairwise hanti h1 h2 hperm
+
 /-! ### `get_edges(source=…)` and `get_edges(destination=…)` -/
 
 /-- the by-source reader IS the one-map reader (the by-source index is the edge map) -/
@@ -56,11 +64,8 @@ theorem byDst_bucket_eq {I : IGraph} (h : Mirror I) (d : String) :
     exact ekCmp_swap_same _ _ _ hab
   have hp2 : (I.bySrc.toList.filter (fun kv => kv.1.2 = d)).Pairwise (fun a b => ekCmp a.1 b.1 = .lt) :=
     (ExtTreeMap.ordered_keys_toList (t := I.bySrc)).filter _
-  refine List.Perm.eq_of_pairwise (le := fun a b => ekCmp a.1 b.1 = .lt) ?_ hp1 hp2 ?_
-  · intro a b _ _ h1 h2
-    exact (ekCmp_lt_asymm _ _ h1 h2).elim
-  · rw [List.perm_ext_iff_of_nodup (pairwise_lt_nodup hp1) (pairwise_lt_nodup hp2)]
-    rintro ⟨⟨x1, x2⟩, xr⟩
+  refine sorted_ext hp1 hp2 ?_
+  · rintro ⟨⟨x1, x2⟩, xr⟩
     simp only [List.mem_map, List.mem_filter, decide_eq_true_eq]
     constructor
     · rintro ⟨⟨⟨k1, k2⟩, kr⟩, ⟨hm, hk⟩, heq⟩
